@@ -30,6 +30,45 @@ def _classes(facts):
     return parent, find
 
 
+WRAPPER_FIELDS = ("Pomerol::BlockNumber::number",)
+
+
+def strip_value_conv(k):
+    """conversions that do not change an index value (BlockNumber <-> integer, casts, 1-argument conversion constructors)"""
+    for _ in range(6):
+        if not isinstance(k, tuple):
+            return k
+        if k[0] == "cast" and len(k) == 3:
+            k = k[2]
+        elif k[0] == "ctor" and len(k) == 3:
+            k = k[2]
+        elif k[0] == "mcall" and len(k) == 3 and "operator " in k[1]:
+            k = k[2]
+        elif k[0] == "field" and len(k) == 3 and k[1] in WRAPPER_FIELDS:
+            k = k[2]          # the only data member of an index wrapper: equal members <=> equal wrappers
+        else:
+            break
+    return k
+
+
+def derived_equalities(facts):
+    """facts plus  a == b  for every pair  a <= b, b <= a  (an equality decided by two non-strict comparisons, e.g. the
+    third branch of a three-way  <  /  >  / else  split), with value-preserving conversions stripped on both sides."""
+    facts = set(facts)
+    le = {(strip_value_conv(f[1]), strip_value_conv(f[2])) for f in facts if f[0] == "<="}
+    out = set(facts)
+    for a, b in le:
+        if (b, a) in le and a != b:
+            x, y = (a, b) if repr(a) <= repr(b) else (b, a)
+            out.add(("==", x, y))
+    for f in list(out):
+        if f[0] == "==":
+            a, b = strip_value_conv(f[1]), strip_value_conv(f[2])
+            if (a, b) != (f[1], f[2]) and a != b:
+                out.add(("==",) + ((a, b) if repr(a) <= repr(b) else (b, a)))
+    return out
+
+
 def canon(facts):
     """rewrite every fact modulo the equalities among them."""
     parent, find = _classes(facts)
